@@ -699,8 +699,32 @@ fn is_branch(i: usize) -> bool {
 /// `j` is said to fall inside the tree if `j < n`.
 #[inline]
 fn is_leaf_index_in_tree(i: usize, n: usize) -> bool {
-    let j = leaf_index_to_tree_index(i);
-    is_tree_index_in_tree(j, n)
+    i.checked_mul(2)
+        .is_some_and(|j| is_tree_index_in_tree(j, n))
+}
+
+/// Returns the number of segments of the audit path of the leaf at `leaf_index` in a tree
+/// made up of `tree_size` nodes, as per RFC 6962 Section 2.1.1.
+///
+/// `tree_size` must be odd and the leaf must be inside the tree.
+fn audit_path_len(leaf_index: usize, tree_size: usize) -> usize {
+    // `tree_size = 2n - 1` for a tree of `n` leaves.
+    let mut n = (tree_size >> 1).saturating_add(1);
+    let mut m = leaf_index;
+    let mut len: usize = 0;
+    while n > 1 {
+        // the largest power of two smaller than n; `n <= 2^(usize::BITS - 1)` so this does not
+        // overflow.
+        let k = n.next_power_of_two() >> 1;
+        if m < k {
+            n = k;
+        } else {
+            m = m.saturating_sub(k);
+            n = n.saturating_sub(k);
+        }
+        len = len.saturating_add(1);
+    }
+    len
 }
 
 /// Returns if a tree index `i` is part of  tree.
